@@ -220,14 +220,46 @@ theorem PInv.ofInv {g : Gh} {c : C} (h : Inv g c) : PInv c.s (pendStep g c.ev) :
       type nibble (`ParseOk`); and between connections the closed transport was reported (the
       ghost is empty) or the previous peer's Maximum Packet Size admits a 5-byte CONNACK;
     * `erase id`: `id` is in use, or the ghost holds no entry of it;
+    * `release id`: no stored packet carries `id` (since fix ba1a812 `release_packet_id` removes
+      `id` from the wait sets `puback` / `pubrec` but leaves the store alone: a stored packet would no
+      longer be awaited — `StoreOk`);
     * `restorePackets`: the PUBLISH / PUBREL packets are of the connection's (determined) version.
-    Nothing is required of `release`, `acquire`, `register`, timers, settings, `closed`. -/
+    Nothing is required of `acquire`, `register`, timers, settings, `closed`. -/
 def Legal (s : St) (pend : Gh) : Op → Prop
   | .send p => p.ver ≠ 0
   | .recv _ parse => ParseOk parse ∧ (s.status = .disconnected → pend = [] ∨ 5 ≤ s.mpsSend)
   | .erase id => isUsed s id = true ∨ ∀ n, (id, n) ∉ pend
+  | .release id => storeHas id s.store = false
   | .restorePackets ps => ∀ p ∈ ps, (p.kind = .publish ∨ p.kind = .pubrel) → p.ver = s.ver ∧ s.ver ≠ 0
   | _ => True
+
+/-- `release_packet_id` (fix ba1a812): the identifier leaves `puback` / `pubrec` together with its
+    ghost entry (event `released id`); no stored packet carries it -/
+theorem inv_releasePacketId {g : Gh} {c : C} (h : Inv g c) (id : Nat) (hst : storeHas id c.s.store = false) :
+    Inv g (releasePacketId c id) := by
+  have hne : ∀ x ∈ c.s.store, x.1 ≠ id := by
+    simpa only [storeHas, List.any_eq_false, decide_eq_true_eq] using hst
+  have key : isUsed c.s id = true → Inv g (dropWaits (releaseIfUsed c id) id) := by
+    intro hu
+    have e : releaseIfUsed c id = (releaseId c id).push (.released id) := by
+      unfold releaseIfUsed; rw [if_pos hu]
+    have f := fr_releaseId c id
+    have hev : (releaseId c id).ev = c.ev := by unfold releaseId; simp only []; split <;> rfl
+    have hs : (releaseId c id).s.status = c.s.status := by unfold releaseId; simp only []; split <;> rfl
+    rw [e]
+    show Inv g ((dropWaits (releaseId c id) id).push (.released id))
+    refine InvM.unmask_released (InvM.del (c' := dropWaits (releaseId c id) id) h hev hs f.ver ?_ ?_ ?_ ?_ ?_)
+    · intro i hi hm; exact mem_del.2 ⟨by rw [f.puback]; exact hm, hi⟩
+    · intro i hi hm; exact mem_del.2 ⟨by rw [f.pubrec]; exact hm, hi⟩
+    · intro i _ hm; show i ∈ (releaseId c id).s.pubcomp; rw [f.pubcomp]; exact hm
+    · show (releaseId c id).s.store.Sublist c.s.store; rw [f.store]; exact List.Sublist.refl _
+    · intro x hx hid
+      have hx' : x ∈ c.s.store := by rw [← f.store]; exact hx
+      exact absurd hid (hne x hx')
+  rcases releasePacketId_eq c id with ⟨_, e⟩ | ⟨hu, _, e⟩ | ⟨hu, _, e⟩ <;> rw [e]
+  · exact h.fr (fr_releaseIfUsed c id)
+  · exact key hu
+  · exact (key hu).fr (fr_decSendCount _)
 
 theorem pendReset_cases (op : Op) (evs : List Ev) (pend : Gh) :
     pendReset op evs pend = [] ∨ pendReset op evs pend = pend := by
@@ -281,7 +313,8 @@ theorem PInv_step {cfg : Cfg} {s : St} {pend : Gh} (h : PInv s pend) (op : Op) (
   | setRespTimeout ms => exact h.of_fr (cfg := cfg) (fr_of_eq rfl rfl rfl)
   | acquire => exact h.of_fr (cfg := cfg) (fr_of_eq rfl rfl rfl)
   | register id => exact h.of_fr (cfg := cfg) (fr_of_eq rfl rfl rfl)
-  | release id => exact h.of_fr (cfg := cfg) (fr_releaseIfUsed _ id)
+  | release id =>
+    exact h.of_good (P := fun _ => True) (.inl (fun g _ hi => inv_releasePacketId hi id hl)) ⟨trivial, trivial⟩
   | erase id =>
     refine h.of_good (P := fun g => isUsed s id = true ∨ ∀ n, (id, n) ∉ g)
       (.inl (fun g hP hi => inv_eraseStoredPublish hi id hP)) ⟨.inr (fun n => by simp), hl⟩
